@@ -57,6 +57,8 @@ def gen_cfg(r, i):
     if mode not in ("ramp", "degenerate") and r.random() < 0.3:
         cfg.update(target_efficiency=(float(r.choice([0.15, 0.3])), float(r.choice([0.6, 0.9]))),
                    target_efficiency_rate=float(r.choice([0.25, 1.0, 3.0])))
+    if r.random() < 0.3:      # unnormalised likelihood: a large common offset of every log-likelihood value
+        cfg["like_offset"] = float(r.choice([-1e5, -2e3, 3e3, 1e6]))
     if mode == "final" or r.random() < 0.25:
         cfg["n_final_samples"] = int(cfg["n_samples"] * r.choice([0.5, 2]))
     cfg["checkpoint_every"] = int(r.choice([1, 1, 2, 3]))
